@@ -50,8 +50,19 @@ def flowChk : CPc → Bool
   | .flowIsSet | .flowSet => true
   | _ => false
 
-/-- workers that have not exited -/
-def liveCnt (s : St) : Nat := s.workers.countP (fun w => w.pc != .exited)
+/-- workers that have not left their loop (`gone`: exited, or — `Cfg.joinTimeout` — retired with only `end()` left) -/
+def liveCnt (s : St) : Nat := s.workers.countP (fun w => !gone w.pc)
+
+/-- no worker is between the post of its wid and its `end()` (always so without a join timeout) -/
+def NoEnding (s : St) : Prop := ∀ w ∈ s.workers, w.pc ≠ .ending
+
+theorem exited_of_gone_noEnding {s : St} (hE : NoEnding s) {w : Worker} (hw : w ∈ s.workers) (hg : gone w.pc = true) :
+    w.pc = .exited := by
+  cases hpc : w.pc <;> rw [hpc] at hg <;> first | rfl | cases hg | skip
+  exact absurd hpc (hE w hw)
+
+theorem not_gone_of_ne {w : Worker} (h1 : w.pc ≠ .exited) (h2 : w.pc ≠ .ending) : gone w.pc = false := by
+  cases hpc : w.pc <;> first | rfl | exact absurd hpc h1 | exact absurd hpc h2
 
 /-- stop orders `__exit__` has put so far -/
 def stopsV (c : CPc) (n : Nat) : Nat :=
@@ -92,7 +103,7 @@ structure ReplI (s : St) : Prop where
   rLive : s.cfg.factory = true → rCall s.cpc = true → s.rAlive = true
   rNotIdle : s.rAlive = true → s.rpc ≠ .idle
   tokR : noneCount s.replQ = if rStopping s.cpc = true ∧ s.rAlive = true then 1 else 0
-  exitedL : ∀ w ∈ s.workers, w.pc = .exited → w.wid ∈ s.procs →
+  exitedL : ∀ w ∈ s.workers, gone w.pc = true → w.wid ∈ s.procs →
     exitPhasePc s.cpc = true ∨ (s.cfg.factory = true ∧ w.wid ∈ pending s)
   noStop : exitPhasePc s.cpc = false → none ∉ s.workQ
   rFac : (s.cpc = .rPutNone ∨ s.cpc = .rStopSet ∨ s.cpc = .rJoin) → s.cfg.factory = true
@@ -152,21 +163,22 @@ theorem liveCnt_zero_of_all {s : St} (hL : LInv s) (h : s.procs.all (workerExite
   unfold liveCnt
   rw [List.countP_eq_zero]
   intro w hw hp
-  have hne : w.pc ≠ .exited := by simpa using hp
+  have hne : gone w.pc = false := by simpa using hp
   have hex := List.all_eq_true.1 h w.wid (hL.listed w hw hne)
   unfold workerExited at hex
   rw [getWorker_of_mem hL.nodup hw] at hex
-  exact hne (by simpa using hex)
+  exact not_exited_of_not_gone hne (by simpa using hex)
 
 /-- and conversely -/
-theorem all_exited_of_liveCnt_zero {s : St} (hL : LInv s) (hpr : ∀ wid ∈ s.procs, ∃ w ∈ s.workers, w.wid = wid)
+theorem all_exited_of_liveCnt_zero {s : St} (hL : LInv s) (hE : NoEnding s)
+    (hpr : ∀ wid ∈ s.procs, ∃ w ∈ s.workers, w.wid = wid)
     (h : liveCnt s = 0) : s.procs.all (workerExited s) = true := by
   rw [List.all_eq_true]
   intro wid hwid
   obtain ⟨w, hw, hww⟩ := hpr wid hwid
   unfold liveCnt at h
   rw [List.countP_eq_zero] at h
-  have hpc : w.pc = .exited := by simpa using h w hw
+  have hpc : w.pc = .exited := exited_of_gone_noEnding hE hw (by simpa using h w hw)
   unfold workerExited
   rw [getWorker_of_mem' hL.nodup hw hww]
   simp [hpc]
